@@ -156,6 +156,7 @@ func workerBatch(t *testing.T, job *Job, scs []*Scenario, emit func(any)) {
 		stride = 1
 	}
 	nfail := 0
+	perSig := map[string]int{}
 	for k := 0; k < job.Count; k++ {
 		i := job.From + k*stride
 		if job.WallS > 0 && time.Since(start).Seconds() > job.WallS {
@@ -203,7 +204,10 @@ func workerBatch(t *testing.T, job *Job, scs []*Scenario, emit func(any)) {
 		}
 		if fo := firstOwned(res); fo != nil {
 			nfail++
-			if nfail <= 8 {
+			// a few per signature, so that a frequent violation cannot mask a rare one
+			sig := fo.Kind + "|" + fo.Check
+			perSig[sig]++
+			if perSig[sig] <= 3 && len(perSig) <= 16 {
 				emit(map[string]any{"kind": "failure", "index": i, "result": res})
 			}
 		} else if len(res.Failures) > 0 {
